@@ -135,7 +135,8 @@ func Run(r *ev.Run) {
 		}
 		c := encCase{id, name, fmt.Sprint(suites), kl}
 		guard(r, fmt.Sprintf("encode:%d", i), c, func() {
-			spec := ech.ConfigSpec{Version: 0xfe0d, ID: uint8(id), KEM: 0x20, PublicKey: key, CipherSuites: suites, PublicName: []byte(name)}
+			// (maximum_name_length is derived from the name: whatever the spec's field holds - e.g. a stale value from a parsed config - must not matter)
+			spec := ech.ConfigSpec{Version: 0xfe0d, ID: uint8(id), KEM: 0x20, PublicKey: key, CipherSuites: suites, PublicName: []byte(name), MaximumNameLength: uint8([]int{0, 5, 255, nl}[i%4])}
 			got, err := spec.Bytes()
 			if err != nil {
 				r.Violation(fmt.Sprintf("encode-err:name%d:key%d", nl, kl), "ConfigSpec.Bytes failed on valid input: "+err.Error(), c)
